@@ -21,12 +21,13 @@ RULE = (
     "sum_k a_s(xiR Q)^k alpha^l ln(1/xiR^2)^i ln(1/xiF^2)^j sum_{p,n} O[p,n] f_p(x_n, xiF^2 Q2)/x_n; (linear) "
     "apply(a f + b g) = a apply(f) + b apply(g); (absent) absent flavours contribute nothing and are never evaluated; "
     "(theory) apply_pdf_theory uses alpha_s from an independent integration of the beta-function ODE (beta0..beta3 typed "
-    "in) at order PTO+1 with nf=NfFF or nf(mu); (default) apply_pdf(pdf) = apply_pdf_theory(pdf, out.theory). "
+    "in) at order PTO+1 from (Qref, nfref) to nf=NfFF or nf(mu) with typed-in decoupling at every matching scale (m k)^2 on the way (generated k in [0.5,2.5], nfref independent of NfFF); (default) apply_pdf(pdf) = apply_pdf_theory(pdf, out.theory). "
     "Non-trivial = at least one point with a non-zero prediction and (xiR,xiF) != (1,1)."
 )
 ASSUMPTIONS = [
-    "alpha_s reference: threshold crossings between Qref and muR are generated only where the matching is trivial "
-    "(PTO<=1 with kThr=1, or no crossing), because eko applies non-trivial matching conditions there (trusted, not re-derived)",
+    "alpha_s reference: between (Qref, nfref) and (muR, NfFF or nf(muR)) the flavour number changes at the matching scales "
+    "(m k)^2, where the pole-mass decoupling series (coefficients typed in from the literature, PTO terms, L = ln k^2; "
+    "downwards its perturbative inverse, which is the convention of the eko couplings the package documents) is applied",
     "alpha_s tolerance 5e-6 relative (eko's exact solver vs scipy solve_ivp at rtol 1e-11); contraction tolerance 1e-11 of the "
     "absolute-value sum",
     "ModEv=EXA only; the alpha_s clause is applied only where the reference coupling stays below 0.5 (perturbative domain)",
@@ -34,7 +35,7 @@ ASSUMPTIONS = [
 BUDGET = {"quick": {"examples": 1600, "wall": 300}, "thorough": {"examples": 50000, "wall": 2400}}
 MANDATORY = {
     t: ["nontrivial", "source:real", "source:synthetic", "clause:formula", "clause:linear", "clause:absent", "clause:theory",
-        "theory:FFNS", "theory:ZM-VFNS", "theory:crossing", "mixed-key", "xs"]
+        "theory:FFNS", "theory:ZM-VFNS", "theory:crossing", "theory:matching-nontrivial", "theory:FFNS-nfref-differs", "mixed-key", "xs"]
     for t in ("quick", "thorough")
 }
 SHRINK = {"quick": False, "thorough": True}
@@ -53,43 +54,78 @@ def beta(nf):
     )
 
 
+def matching_up(nl):
+    """Pole-mass decoupling coefficients c[n][k] of a^(nl+1) = a (1 + sum_n a^n sum_k c[n][k] L^k), a = alpha_s^(nl)/4pi,
+    L = ln(mu_thr^2/m^2) (Chetyrkin-Kniehl-Steinhauser; Vogt hep-ph/0408244 eq. 2.43), typed in."""
+    return {
+        1: {1: 2.0 / 3.0},
+        2: {0: 14.0 / 3.0, 1: 38.0 / 3.0, 2: 4.0 / 9.0},
+        3: {0: 340.729 - 16.7981 * nl, 1: 8941.0 / 27.0 - 409.0 / 27.0 * nl, 2: 511.0 / 9.0, 3: 8.0 / 27.0},
+    }
+
+
+def matching_down(nl):
+    """Coefficients of the inverse series (a^(nl) in terms of a^(nl+1)), by series reversion of matching_up."""
+    c = matching_up(nl)
+    c11, c20, c21, c22 = c[1][1], c[2][0], c[2][1], c[2][2]
+    c30, c31, c32, c33 = c[3][0], c[3][1], c[3][2], c[3][3]
+    return {
+        1: {1: -c11},
+        2: {0: -c20, 1: -c21, 2: 2.0 * c11**2 - c22},
+        3: {0: -c30, 1: 5.0 * c11 * c20 - c31, 2: 5.0 * c11 * c21 - c32, 3: -5.0 * c11**3 + 5.0 * c11 * c22 - c33},
+    }
+
+
+class NonPerturbative(Exception):
+    pass
+
+
 def as_ref(th, mu):
-    """alpha_s(mu) from the theory card by integrating da/dln(mu^2) = -sum_k beta_k a^(k+2), a = alpha_s/4pi."""
+    """alpha_s(mu) from the theory card: da/dln(mu^2) = -sum_k beta_k a^(k+2) (a = alpha_s/4pi, PTO+1 terms) from
+    (Qref, nfref) to (mu, nf_to), nf_to = NfFF or nf(mu); at every matching scale (m k)^2 on the way the number of
+    flavours changes by one and the coupling is matched with PTO terms of the decoupling series at L = ln k^2."""
     order = th["PTO"] + 1
-    thr = [(th[m] * th[k]) ** 2 for m, k in (("mc", "kcThr"), ("mb", "kbThr"), ("mt", "ktThr"))]
-    fixed = th["FNS"] != "ZM-VFNS"
+    thr = {nf: (th[m] * th[k]) ** 2 for nf, m, k in ((4, "mc", "kcThr"), (5, "mb", "kbThr"), (6, "mt", "ktThr"))}
+    lk = {nf: math.log(th[k] ** 2) for nf, k in ((4, "kcThr"), (5, "kbThr"), (6, "ktThr"))}
+    q2b = mu**2
+    nf_to = th["NfFF"] if th["FNS"] != "ZM-VFNS" else 3 + sum(1 for t in thr.values() if t <= q2b)
 
-    def nf_at(q2):
-        return th["NfFF"] if fixed else 3 + sum(1 for t in thr if t <= q2)
+    def run_to(a, nf, s, e):
+        if s == e:
+            return a
+        bs = beta(nf)[:order]
+        sol = solve_ivp(lambda t, y: -sum(bk * y[0] ** (k + 2) for k, bk in enumerate(bs)), [math.log(s), math.log(e)], [a], rtol=1e-11, atol=1e-15, method="DOP853")
+        if not sol.success or not 0.0 < sol.y[0, -1] * 4 * math.pi < 0.5 or not np.all(np.isfinite(sol.y)):
+            raise NonPerturbative()
+        return float(sol.y[0, -1])
 
-    def rhs_nf(nf):
-        b = beta(nf)[:order]
-        return lambda t, a: -sum(bk * a[0] ** (k + 2) for k, bk in enumerate(b))
+    def match(a, coeffs, L):
+        f = 1.0
+        for n in range(1, order):
+            for k, cnk in coeffs[n].items():
+                f += a**n * L**k * cnk
+        return a * f
 
-    q2a, q2b = th["Qref"] ** 2, mu**2
-    a = th["alphas"] / (4 * math.pi)
-    if fixed:
-        walls = []
-    else:
-        lo, hi = min(q2a, q2b), max(q2a, q2b)
-        walls = sorted(t for t in thr if lo < t <= hi) if q2b > q2a else sorted((t for t in thr if lo <= t < hi), reverse=True)
-    pts = [q2a] + walls + [q2b]
-    nf = th["nfref"] if not fixed else th["NfFF"]
-    for s, e in zip(pts[:-1], pts[1:]):
-        if s != e:
-            if not fixed:
-                nf = nf_at(math.sqrt(s * e))
-            sol = solve_ivp(rhs_nf(nf), [math.log(s), math.log(e)], [a], rtol=1e-11, atol=1e-15, method="DOP853")
-            a = float(sol.y[0, -1])
+    a, nf, q2 = th["alphas"] / (4 * math.pi), th["nfref"], th["Qref"] ** 2
+    while nf < nf_to:
+        a = match(run_to(a, nf, q2, thr[nf + 1]), matching_up(nf), lk[nf + 1])
+        q2, nf = thr[nf + 1], nf + 1
+    while nf > nf_to:
+        a = match(run_to(a, nf, q2, thr[nf]), matching_down(nf - 1), lk[nf])
+        q2, nf = thr[nf], nf - 1
+    a = run_to(a, nf, q2, q2b)
+    if not 0.0 < a * 4 * math.pi < 0.5:
+        raise NonPerturbative()
     return a * 4 * math.pi
 
 
 def crossing_info(th, mu):
-    if th["FNS"] != "ZM-VFNS":
-        return False
-    thr = [(th[m] * th[k]) ** 2 for m, k in (("mc", "kcThr"), ("mb", "kbThr"), ("mt", "ktThr"))]
-    lo, hi = sorted((th["Qref"] ** 2, mu**2))
-    return any(lo < t <= hi for t in thr)
+    """(number of matchings on the way, some matching non-trivial: L != 0 or PTO >= 2)"""
+    thr = {nf: (th[m] * th[k]) ** 2 for nf, m, k in ((4, "mc", "kcThr"), (5, "mb", "kbThr"), (6, "mt", "ktThr"))}
+    nf_to = th["NfFF"] if th["FNS"] != "ZM-VFNS" else 3 + sum(1 for t in thr.values() if t <= mu**2)
+    lo, hi = sorted((th["nfref"], nf_to))
+    ks = [th[k] for nf, k in ((4, "kcThr"), (5, "kbThr"), (6, "ktThr")) if lo < nf <= hi]
+    return len(ks), bool(ks) and (th["PTO"] >= 2 or any(k != 1.0 for k in ks))
 
 
 @st.composite
@@ -133,23 +169,27 @@ def cases(draw, tier="quick"):
     pto = draw(st.integers(0, 3))
     t = cards.theory(PTO=pto, FNS=fns, alphas=round(draw(st.floats(0.1, 0.13)), 5))
     t.update(draw(cards.masses()))
+    # matching scales (m k) in the natural order, ratios as users set them or generic
+    kdraw = st.sampled_from([1.0, 1.0, 0.5, 2.0, 1.5]) | st.floats(0.5, 2.5).map(lambda k: round(k, 3))
+    t["kcThr"] = draw(kdraw)
+    t["kbThr"] = max(draw(kdraw), round(1.06 * t["mc"] * t["kcThr"] / t["mb"], 3))
+    t["ktThr"] = max(draw(kdraw), round(1.06 * t["mb"] * t["kbThr"] / t["mt"], 3))
     t["XIR"], t["XIF"] = base["xiR"], base["xiF"]
     t["alphaqed"] = base["aem_par"][0]
-    if fns == "ZM-VFNS":
-        # reference point in the patch of its nfref
-        nfr = draw(st.integers(3, 6))
-        thr = [0.0, t["mc"], t["mb"], t["mt"], 1e5]
-        lo, hi = max(thr[nfr - 3], 1.0), thr[nfr - 2]
+    t["MaxNfAs"] = 6
+    nfr = draw(st.integers(3, 6))
+    scales = [0.0, t["mc"] * t["kcThr"], t["mb"] * t["kbThr"], t["mt"] * t["ktThr"], 1e5]
+    if draw(st.integers(0, 3)) > 0:
+        # reference point inside the patch of its nfref
+        lo, hi = max(scales[nfr - 3], 1.5), max(scales[nfr - 2], 2.0)
         t["Qref"] = round(lo + (hi - lo) * draw(st.floats(0.1, 0.9)), 4)
-        t["nfref"] = nfr
-        t["MaxNfAs"] = 6
-        if pto >= 2:
-            base["theory_same_patch"] = True
     else:
+        t["Qref"] = round(draw(st.floats(2.0, 300.0)), 3)
+    t["nfref"] = nfr
+    if fns != "ZM-VFNS":
         t["NfFF"] = draw(st.integers(3, 5))
-        t["nfref"] = t["NfFF"]
-        t["Qref"] = round(draw(st.floats(2.0, 200.0)), 3)
-        t["MaxNfAs"] = 6
+        if draw(st.booleans()):
+            t["nfref"] = t["NfFF"]
     base["apply_theory"] = t
     return base
 
@@ -278,15 +318,22 @@ def check_case(case):
                 for r in lst:
                     mus.add(math.sqrt(float(r.Q2)) * th["XIR"])
         usable = True
-        if th["FNS"] == "ZM-VFNS":
-            trivial = th["PTO"] <= 1 and th["kcThr"] == th["kbThr"] == th["ktThr"] == 1.0
-            if any(crossing_info(th, mu) for mu in mus):
-                v.label("theory:crossing" if trivial else "theory:crossing-skipped")
-                usable = trivial
-        if usable and mus and max(as_ref(th, mu) for mu in mus) > 0.5:
+        try:
+            for mu in mus:
+                as_ref(th, mu)
+        except NonPerturbative:
             # towards the Landau pole the ODE is ill-conditioned: outside the domain of the alpha_s oracle
             v.label("theory:nonperturbative-skipped")
             usable = False
+        if usable:
+            for mu in mus:
+                n, nontriv = crossing_info(th, mu)
+                if n:
+                    v.label("theory:crossing")
+                if nontriv:
+                    v.label("theory:matching-nontrivial")
+                if n and th["FNS"] != "ZM-VFNS":
+                    v.label("theory:FFNS-nfref-differs")
         if usable and mus:
             v.label("clause:theory", f"theory:{th['FNS'] if th['FNS'] != 'FFN0' else 'FFNS'}", f"theory:pto{th['PTO']}")
             gt = guarded(out.apply_pdf_theory, f1, th)
